@@ -187,6 +187,10 @@ def run(ctx):
                          modes=[("none",)]))
     corr_parse.run_jobs(ctx, "model-vs-real:deep", jobs)
     mult = 4 if (ctx.broken and not ctx.fail_inputs) else 1
+    # ---- Forwards taking a non-skipping body's flag ---------------------------------------------------------
+    fj = forward_flag_jobs(f"C01-{ctx.seed}", ctx.budget(400, 4000))
+    corr_parse.run_jobs(ctx, "model-vs-real:forward-flags", [dict(j, entries=[("parse", ())], modes=[("none",)]) for j in fj])
+    run_ref(ctx, "reference:forward-flags", fj)
     # ---- Each (outside the Lean model: reference only) ------------------------------------------------
     ej = []
     for i in range(ctx.budget(3000, 30000) * mult):
@@ -309,6 +313,45 @@ def each_case(rng):
         inputs.append(" ".join(t for part in seq for t in part) + tail)
     inputs.append(tail)
     return prog, root, inputs
+
+
+def forward_flag_jobs(seed_tag, n):
+    """a Forward assigned (<<=) an expression that does NOT skip whitespace - a leave_whitespace()d token, an
+    alternation of such, a sequence led by one, CharsNotIn, a negative lookahead - and used afterwards as a later element
+    of a sequence / inside Group / as an alternative: the Forward takes its body's flag, so blanks in front of it are
+    not skipped (the whitespace rule applies to skipping elements only)"""
+    jobs = []
+    for i in range(n):
+        r = random.Random(f"{seed_tag}-fwdflag-{i}")
+        prog = [["w", "Word", "hi"], ["l", "Literal", "!"], ["t", "leave_whitespace", "l"], ["q", "Literal", "?"],
+                ["t2", "leave_whitespace", "q"], ["cn", "CharsNotIn", "hi \n", {"exact": 1}], ["kw", "Keyword", "hi"]]
+        k = r.choice(["tok", "mf", "or", "seq", "cn", "not"])
+        if k == "tok":
+            prog.append(["body", "copy", "t"])
+        elif k == "mf":
+            prog.append(["body", "MatchFirst", ["t", "t2"]])
+        elif k == "or":
+            prog.append(["body", "Or", ["t", "t2"]])
+        elif k == "seq":
+            prog.append(["body", "+", "t", "w"])
+        elif k == "cn":
+            prog.append(["body", "copy", "cn"])
+        else:
+            prog += [["nk", "~", "kw"], ["body", "+", "nk", "l"]]
+        prog += [["F", "Forward"], ["_", "<<=", "F", "body"]]
+        use = r.choice(["seq", "group", "alt", "opt", "rep"])
+        if use == "seq":
+            prog.append(["root", "+", "w", "F"])
+        elif use == "group":
+            prog += [["s", "+", "w", "F"], ["g", "Group", "s"], ["root", "|", "g", "w"]]
+        elif use == "alt":
+            prog += [["s", "+", "w", "F"], ["root", "MatchFirst", ["s", "w"]]]
+        elif use == "opt":
+            prog += [["o", "Opt", "F"], ["root", "+", "w", "o"]]
+        else:
+            prog += [["z", "ZeroOrMore", "F"], ["root", "+", "w", "z"]]
+        jobs.append(dict(prog=prog, root="root", inputs=["hi!", "hi !", "hi ?", " hi?", "hi\n!", "hi !hi", "hi!hi", "hi ! hi", "hi", "hi?!"]))
+    return jobs
 
 
 def replay(data):
